@@ -9,5 +9,8 @@ CONSTANTS
   QCap = 0
   Gating = FALSE
   QfRet = TRUE
+  Echo = "xml10"
+  PName = "exact"
+  Deep = "caught"
   LexG = "full"
 CHECK_DEADLOCK FALSE
